@@ -248,7 +248,7 @@ func register(name string, v any) {
 	registry = append(registry, sharedEntry{name: name, v: v, snap: emit.Dump(reflect.ValueOf(v))})
 }
 
-// every shared value of the three populations
+// every shared value of the four populations
 func registerShared() {
 	register("shared", shared)
 	register("shared2", shared2)
@@ -257,6 +257,11 @@ func registerShared() {
 	for _, f := range families {
 		for i, t := range f.templates {
 			register(fmt.Sprint("template ", f.name, i), t)
+		}
+	}
+	for _, t := range shippedTypes {
+		for i, tpl := range t.templates {
+			register(fmt.Sprint("template of every leaf ", t.name, i), tpl)
 		}
 	}
 	for _, t := range targets {
@@ -312,7 +317,7 @@ func sharedChanged(when string) []string {
 	var out []string
 	for _, e := range registry {
 		if now := emit.Dump(reflect.ValueOf(e.v)); now != e.snap {
-			out = append(out, fmt.Sprintf("%s: the shared value %q was changed by read operations: before the goroutines started %s, now %s", when, e.name, clip(e.snap, now), clip(now, e.snap)))
+			out = append(out, fmt.Sprintf("%s: the shared value %q was changed (by a read operation on it, or by a write to a private value copied from it): before the goroutines started %s, now %s", when, e.name, clip(e.snap, now), clip(now, e.snap)))
 		} else if s := keysFound(reflect.ValueOf(e.v), e.name, 0); s != "" {
 			out = append(out, when+": "+s)
 		}
